@@ -110,6 +110,17 @@ def run(tier):
             j.update({"id": len(jobs), "src": wlib.render(t["p"])})
             meta[j["id"]] = ("wterm", {"p": t["p"], "ty": "?", "k": "wterm", "typable": t["ok"]}, s)
             jobs.append(j)
+    # the generalisation-sensitive skeleton family of LangW.tla (a let-bound function whose type is tied to a lambda-bound
+    # variable must not be generalised): accepted members must run without going wrong
+    sk_terms, sr = c03.skeleton_terms(tier, seed)
+    rs.append(sr)
+    for p_ in sk_terms:
+        s = {"prelude": False, "optimize": True, "debug": True, "run_io": False, "full_metadata": False}
+        j = dict(s)
+        j.update({"id": len(jobs), "src": wlib.render(p_)})
+        meta[j["id"]] = ("wterm", {"p": p_, "ty": "?", "k": "wterm", "typable": None}, s)
+        jobs.append(j)
+    stats["skeleton_family"] = {"members": sr.total, "run": len(sk_terms)}
     vlib.log("[C02] %d runs (%d programs x %d setting combinations + module programs + %d ML-fragment terms)" % (len(jobs), len(progs), len(combos), len(wterms)))
     res = vlib.run_pool(["lang"], jobs, workers=14, job_timeout=30)
     accepted_runs = shape_checked = 0
